@@ -56,6 +56,10 @@ func (c *TCPClient) Do(method, url string, hdr http.Header, body io.Reader, clen
 		return nil, err
 	}
 	for k, v := range hdr {
+		if http.CanonicalHeaderKey(k) == "Host" && len(v) > 0 {
+			req.Host = v[0]
+			continue
+		}
 		req.Header[k] = v
 	}
 	if body != nil {
